@@ -45,7 +45,7 @@ type childSpec struct {
 	NHist  int      `json:"nhist"`
 	First  int      `json:"first,omitempty"` // number of the first history of this shard
 	Big    int      `json:"big,omitempty"`   // mode big: number of records
-	Build  string   `json:"build"` // plain | race
+	Build  string   `json:"build"`           // plain | race
 	Rounds int      `json:"rounds,omitempty"`
 	Replay *history `json:"replay,omitempty"`
 }
@@ -53,6 +53,7 @@ type childSpec struct {
 // history is one generated operation history over one fresh database.
 type history struct {
 	No   int      `json:"no"`
+	Priv string   `json:"priv,omitempty"` // "" = local+internal interface, "none" = neither (records carry no secret/crown-jewel flags then)
 	Keys []string `json:"keys"`
 	Ops  []op     `json:"ops"`
 }
